@@ -100,9 +100,17 @@ func (sid *SampleID) UnmarshalJSON(data []byte) error {
 	if err != nil {
 		return err
 	}
-	sid.height = jsonSid.Height
-	sid.RowIndex = jsonSid.RowIndex
-	sid.ShareIndex = jsonSid.ShareIndex
+	decoded := SampleID{
+		RowID: RowID{
+			EdsID:    EdsID{height: jsonSid.Height},
+			RowIndex: jsonSid.RowIndex,
+		},
+		ShareIndex: jsonSid.ShareIndex,
+	}
+	if err := decoded.Validate(); err != nil {
+		return fmt.Errorf("validating SampleID: %w", err)
+	}
+	*sid = decoded
 	return nil
 }
 
